@@ -393,7 +393,11 @@ def _stat_exact(stat, kind):
 
     if kind in ("datetime", "timedelta"):
         if isinstance(stat, (pd.Timestamp, pd.Timedelta)) and stat is not pd.NaT:
-            return int(stat.value)
+            try:
+                return int(stat.value)
+            except (OverflowError, ValueError):
+                # (a bound that cannot be expressed in nanoseconds can never equal a ns-valued minimum / maximum)
+                return f"<{type(stat).__name__}:{stat!r}>"
         return f"<{type(stat).__name__}:{stat!r}>"
     v = _py(stat)
     if isinstance(v, bool) or not isinstance(v, (int, float)):
